@@ -24,7 +24,6 @@ def classify(case):
 
 SPEC = dict(
     prop="C14",
-    disabled="under construction",
     # only main.go + conflictkinds.go are compiled, so another builder's half-written translator cannot break this one
     gens=[dict(name="ConflictKinds", cmd=["go", "run", "-C", "translators", "main.go", "conflictkinds.go", "conflictkinds"],
                what="case literals and clause shapes of checkChangeConflictExclusiveKinds and isIrrelevantChange")],
